@@ -43,6 +43,7 @@ def check(run):
         run.inconclusive.append('MIR-level clip_by_plane obligations not encoded: %s' % str(e)[:300])
     run.guard(CR.fan_boundary, funcs, 'C18', (20, 40) if run.tier == 'quick' else (20, 40, 96), 8 if run.tier == 'quick' else 24)
     run.guard(CR.cycle_long_history, funcs, 'C18', 1500 if run.tier == 'quick' else 6000)
+    run.guard(CR.prism_cut, funcs, 'C18', 24 if run.tier == 'quick' else 72)
     kanirun.run(run, 'C18', KANI + (KANI_THOROUGH if run.tier == 'thorough' else []), jobs=3)
     run.assume('float leaves (intersect_planes of the new vertices, safety radius) abstracted: equal vertex sets give equal volumes only up to rounding')
     return run.finish(LEVEL, EXPLANATION, trusted=['rustc -Zunpretty=mir', 'z3 5.1.0', 'Kani 0.68 / CBMC 6.11', 'std Vec/slice/iterator models of mirsym'])
